@@ -56,7 +56,14 @@ class BalMonitor(Monitor):
                     break
                 self.hcheck.setdefault(p, []).append(a)
                 self.kind.setdefault(p, []).append(('hcheck', a))
+        # a function entry label can share its address with loop_N (unchecked
+        # builds have no entry guard): the frame must be pushed first
+        for a in self.kind:
+            self.kind[a].sort(key=lambda kn: 0 if kn[0] == 'func' else 1)
         vm.watch |= set(self.kind)
+        # a call is `j func; halt; end_call_N:` - the only kind of jump that
+        # opens an activation (a back edge may land on a function label too)
+        self.call_sites = {a - 2 for n, a in code.items() if n.startswith('end_call_')}
         if self.A_defeat is not None:
             vm.watch_words.setdefault(self.A_defeat, []).append(self)
         # frame = (name, fp_entry, ap_entry, recs)   recs: tuple of (key, value) pairs (immutable)
@@ -99,7 +106,7 @@ class BalMonitor(Monitor):
             stack, pend = self.state
             fr = stack[-1]
             if k == 'func':
-                if jumped_from is not None:
+                if jumped_from in self.call_sites:
                     self.stats['call'] += 1
                     self.state = (stack + ((n, fp, ap, ()),), pend)
             elif k == 'end_call':
@@ -115,7 +122,7 @@ class BalMonitor(Monitor):
                     self.state = (stack[:-1], pend)
             elif k == 'loop':
                 brk = self.code_names.get(f'break_{n}', 1 << 60)
-                if jumped_from is None or not (pc <= jumped_from < brk):
+                if jumped_from is None or jumped_from in self.call_sites or not (pc <= jumped_from < brk):
                     self.stats['loop_entry'] += 1
                     self.state = (stack[:-1] + ((fr[0], fr[1], fr[2], self._put(fr[3], ('l', n), (fp, ap))),), pend)
                 else:
